@@ -236,7 +236,8 @@ CHECKS = {
                 "partition oracle, reference optimum). Distinct = hash of (edit, file set).",
         "required_buckets": ["builder_returned_err", "builder_returned_dictionary", "reference_parsers_accept_too", "reference_parsers_decline",
                              "accepted_dictionary_checked_against_reference_reading", "user_lexicon_rejected", "mapping_sequence_no_panic",
-                             "err_char.def", "err_lex.csv", "err_unk.def", "err_matrix.def", "err_bigram.cost", "seed_bundled_resources"],
+                             "err_char.def", "err_lex.csv", "err_unk.def", "err_matrix.def", "err_bigram.cost", "seed_bundled_resources",
+                             "reader_io_error_surfaced_as_err"],
         "assumptions": ["the strict reference parsers accept only a conservative subset of each format; when they decline, only the no-panic and id-range clauses are judged",
                         "out-of-memory aborts caused by absurd declared sizes are reported as process aborts, not silently ignored"],
     },
